@@ -68,6 +68,7 @@ def build(ck):
         _twin(ck)
     if want("params"):
         _vmap_params(ck)
+        _params_concrete(ck)
     if want("rollout"):
         _vmap_rollout(ck)
     if want("static"):
@@ -191,6 +192,40 @@ def _vmap_params(ck):
                         facts += [eo.re == so.re, eo.im == so.im]  # congruence, justified by the argument obligations
             for i in np.ndindex(shape):
                 ck.add(f"params/{nm}/member{b}/out/{'_'.join(map(str, i))}", sym.equal_goal(enc.outs[0][(b,) + i], single.outs[0][i]), facts, family=fam, timeout=120)
+
+
+def _params_concrete(ck):
+    """traced versus eager construction (concrete, reported as such): a stepper built under eqx.filter_vmap /
+    filter_jit from array-valued parameters gives the numbers of the stepper built eagerly from Python floats.
+    The symbolic obligations above compare two TRACED constructions; a constructor that branches on the Python
+    type of a parameter can only be seen by comparing with the eager float path."""
+    fam = "traced (vmap/jit) construction = eager construction from Python floats (concrete)"
+    rng = np.random.default_rng(0)
+    cases = [
+        ("GeneralNonlinearStepper/nonlinear_coefficients", lambda p: G.GeneralNonlinearStepper(1, 1.0, 16, 0.01, nonlinear_coefficients=(p[0], p[1], p[2])), 3),
+        ("NormalizedNonlinearStepper/coefficients", lambda p: G.NormalizedNonlinearStepper(1, 16, normalized_nonlinear_coefficients=(p[0], p[1], p[2])), 3),
+        ("GeneralConvectionStepper/convection_scale", lambda p: G.GeneralConvectionStepper(1, 1.0, 16, 0.01, convection_scale=p[0]), 1),
+        ("GeneralGradientNormStepper/scale", lambda p: G.GeneralGradientNormStepper(1, 1.0, 16, 0.001, gradient_norm_scale=p[0]), 1),
+        ("GeneralPolynomialStepper/coefficients", lambda p: G.GeneralPolynomialStepper(1, 1.0, 16, 0.01, polynomial_coefficients=(p[0], p[1], p[2])), 3),
+        ("GeneralLinearStepper/coefficients", lambda p: G.GeneralLinearStepper(1, 1.0, 16, 0.01, linear_coefficients=(p[0], p[1], p[2])), 3),
+        ("Burgers/diffusivity+scale", lambda p: S.Burgers(1, 1.0, 16, 0.01, diffusivity=p[0], convection_scale=p[1]), 2),
+        ("KuramotoSivashinsky/scales", lambda p: S.KuramotoSivashinsky(1, 10.0, 16, 0.01, gradient_norm_scale=p[0], second_order_scale=p[1], fourth_order_scale=p[2]), 3),
+        ("FisherKPP/reactivity", lambda p: S.reaction.FisherKPP(1, 1.0, 16, 0.01, diffusivity=p[0] * 0.01, reactivity=p[1]), 2),
+        ("Advection/scalar", lambda p: S.Advection(1, 1.0, 16, 0.01, velocity=p[0]), 1),
+        ("Diffusion/scalar", lambda p: S.Diffusion(1, 1.0, 16, 0.01, diffusivity=p[0]), 1),
+    ]
+    u = jnp.asarray(rng.normal(size=(1, 16))) * 0.3
+    for nm, make, npar in cases:
+        P = jnp.asarray(rng.uniform(0.2, 0.9, size=(2, npar)))
+        try:
+            eager = jnp.stack([make([float(x) for x in P[i]])(u) for i in range(2)])
+            batched = eqx.filter_vmap(lambda p: make(p)(u))(P)
+            jitted = eqx.filter_jit(lambda p: make(p)(u))(P[0])
+            e = max(float(jnp.max(jnp.abs(batched - eager))), float(jnp.max(jnp.abs(jitted - eager[0]))))
+            ok, detail = e < 1e-9, f"max deviation {e:.3g}"
+        except Exception as ex_:  # noqa
+            ok, detail = False, f"raises {type(ex_).__name__}: {str(ex_)[:160]}"
+        ck.add(f"params-concrete/{nm}", bool(ok), [], family=fam, replay=lambda m, nm=nm, detail=detail: {"reproduced": True, "detail": f"{nm}: stepper built under filter_vmap/filter_jit differs from the eager float construction: {detail}"})
 
 
 def _param_fail_replay(make, pshape, shape, msg):
